@@ -354,6 +354,29 @@ func (endp *Endpoint) setupListeners(addresses []config.Endpoint) error {
 }
 
 func (endp *Endpoint) NewSession(conn *smtp.Conn) (smtp.Session, error) {
+	// go-smtp creates a new session on each EHLO/HELO/LHLO command and
+	// just drops the previous one. Make sure the message transaction that
+	// may be in progress is aborted, limits are released, etc.
+	if conn != nil {
+		if prev, ok := conn.Session().(*Session); ok && prev != nil {
+			// msgLock is held for the whole duration of Data and with BDAT
+			// it may be waiting for the next chunk right now. go-smtp keeps
+			// using the previous session if we fail here.
+			if !prev.msgLock.TryLock() {
+				return nil, &smtp.SMTPError{
+					Code:         503,
+					EnhancedCode: smtp.EnhancedCode{5, 5, 1},
+					Message:      "EHLO is not allowed during message transfer",
+				}
+			}
+			prev.msgLock.Unlock()
+
+			if err := prev.Logout(); err != nil {
+				endp.Log.Error("previous session logout failed", err)
+			}
+		}
+	}
+
 	sess := endp.newSession(conn)
 
 	// Executed before authentication and session initialization.
